@@ -6,11 +6,12 @@ import time
 from .. import vlib
 from ..vlib import Inconclusive
 
-RULE = ("every stream of up to 3 (thorough: 4) frames drawn from the 14 frame kinds of Frames.tla (well-formed with/without payload, "
+RULE = ("every stream of up to 3 (thorough: 4) frames drawn from the 15 frame kinds of Frames.tla (well-formed with/without payload, "
         "trailing bytes, unknown type, body shorter than the fixed part, empty body, element count / string length / payload count "
         "beyond the body, size field 0..6 / msize+1 / >4 MiB / 2^31 / 2^32-1, stream ending inside header / body), concretised with "
         "seeded random choices, fed to Server.Handle one frame at a time through a counting pipe: per frame the reply class and tag or "
-        "the end of the connection, and the exact number of bytes consumed; plus the size check of p9.Client as receiver for msize "
+        "the end of the connection, and the exact number of bytes consumed; plus the sweep of every request type x every proper prefix "
+        "of a well-formed body x last string length +1/+2, each followed by a good request (Rlerror, then served); plus the size check of p9.Client as receiver for msize "
         "64 KiB / 4 MiB / 8 MiB; unacceptable R-frames with calls pending are covered by C10's stimuli")
 
 
@@ -35,7 +36,7 @@ def run(tier, seed):
         def args(i, k):
             o = os.path.join(s, "frames-%d.json" % i)
             outs.append(o)
-            return ["-in", out, "-sizes", sz, "-out", o, "-shard", str(i), "-nshard", str(k), "-seed", str(seed),
+            return ["-in", out, "-sizes", sz, "-out", o, "-shard", str(i), "-nshard", str(k), "-seed", str(seed), "-sweep",
                     "-reps", "1" if tier == "quick" else "3"]
         res = vlib.run_shards("frames", args)
         cases = frames = 0
